@@ -58,6 +58,7 @@ func newWorldLine(x *World, widx int) map[string]interface{} {
 		"args": map[string]interface{}{
 			"name": h.Name, "comps": comps, "capInc": h.CapInc, "relCapInc": h.RelCapInc, "nres": h.NRes,
 			"listener": h.Listener, "ls": h.LS, "lc": nonNil(h.LC), "lhasc": h.LHasC, "probe": h.Probe,
+			"dispatch": dispatchDesc(h.Dispatch), "isDispatch": len(h.Dispatch) > 0,
 			"totalBits": ecs.MaskTotalBits,
 		},
 		"res":    map[string]interface{}{"panic": false, "cls": "", "msg": "", "ret": -1, "handles": [][2]int{}},
@@ -72,6 +73,14 @@ func newWorldLine(x *World, widx int) map[string]interface{} {
 		line["shape"] = x.w.VerifShape()
 	}
 	return line
+}
+
+func dispatchDesc(d []LSpec) []interface{} {
+	res := []interface{}{}
+	for _, l := range d {
+		res = append(res, map[string]interface{}{"s": l.S, "c": nonNil(l.C), "hasc": l.HasC && len(l.C) > 0})
+	}
+	return res
 }
 
 // runSchedule executes a complete schedule and writes its trace.
@@ -149,12 +158,42 @@ func cmdGen(args []string) {
 			NRes:     p.NRes,
 			Listener: rng.Intn(100) < p.Listener,
 			LS:       63,
-			Probe:    p.Probe,
+			Probe:    p.Probe && !p.RandListener,
 			Sweep:    p.Sweep,
 			Shape:    p.Shape,
 		}
 		if rng.Intn(3) == 0 {
 			h.RelCapInc = 1 + rng.Intn(3)
+		}
+		if p.RandListener {
+			randL := func() LSpec {
+				l := LSpec{S: rng.Intn(64)}
+				if rng.Intn(3) == 0 {
+					l.S = []int{63, 1, 2, 4, 8, 16, 32, 48, 3, 12}[rng.Intn(10)]
+				}
+				if rng.Intn(100) < 60 {
+					l.HasC = true
+					for _, c := range p.Comps {
+						if rng.Intn(100) < 35 {
+							l.C = append(l.C, c.ID)
+						}
+					}
+					if len(l.C) == 0 {
+						l.C = []int{p.Comps[rng.Intn(len(p.Comps))].ID}
+					}
+				}
+				return l
+			}
+			if rng.Intn(100) < p.DispatchPct {
+				n := 1 + rng.Intn(4)
+				for i := 0; i < n; i++ {
+					h.Dispatch = append(h.Dispatch, randL())
+				}
+				h.Listener = true
+			} else {
+				l := randL()
+				h.Listener, h.LS, h.LC, h.LHasC = true, l.S, l.C, l.HasC
+			}
 		}
 		h.Twin = p.Twin
 		ss := newSession(h, out)
